@@ -4412,13 +4412,14 @@ theorem editHistory_undo_bmp' (S : Schema) (htr : compatTransB S = true) (htl : 
     (editOps_residual' S htr htl hdet hfill hwrap hlab hleaf hts hcl ops (Tr.init doc) rfl rfl ⟨hd, hn⟩ hb
       hall hres)
 
-/-- **every replace-around answer of `replace_step` fits back** (schema with `TextLoop`, document valid, in normal
-    form, BMP; the step applied): its gap `[to, to.end())` runs to the end of the parent of `to` — the token behind
-    it is that node's closing token (`replaceStep_range`) — so after `remove_between` the gap goes back at the end
-    of that node's remaining content, where `insert_into`'s `can_replace` check sees the node's original content
-    with at most one text child doubled (`gapFitsBack_of_tail`, Proofs/GapTailFits.lean).  The gap may start
-    inside a text child (not `gapClean`); finding C04-around-text-gap needs a schema without `TextLoop`. -/
-theorem fit_around_gapFitsBack (S : Schema) (htl : TextLoop S) (doc doc' : Node) (f t : Nat) (req : Slice)
+/-- **every replace-around answer of `replace_step` fits back** (document valid, in normal form, BMP; the step
+    applied): its gap `[to, to.end())` runs to the end of the parent of `to` — the token behind it is that node's
+    closing token (`replaceStep_range`) — so after `remove_between` the gap goes back at the end of that node's
+    remaining content, a pair-aligned cut, and what `insert_into` builds and validates there is the node's original
+    content (`gapFitsBack_of_tail`, Proofs/GapTailFits.lean, from `gapFitsBack_of_valid`).  The gap may start inside
+    a text child (not `gapClean`).  No schema condition: until the repair of `insert_into` (finding
+    C04-around-text-gap) this needed `TextLoop S`. -/
+theorem fit_around_gapFitsBack (S : Schema) (doc doc' : Node) (f t : Nat) (req : Slice)
     (hd : S.checkNode doc = true) (hn : fnorm doc.kids = true) (hb : bmpDoc doc = true) (hft : f ≤ t) (s : Step)
     (hr : replaceStep S doc f t req = .ok (some s)) (ha : S.apply s doc = .ok doc') :
     AroundFitsBack S s doc := by
@@ -4437,7 +4438,7 @@ theorem fit_around_gapFitsBack (S : Schema) (htl : TextLoop S) (doc doc' : Node)
       cases hrm : old.removeBetween (t - f) (G2 - f) with
       | error e => simp [hrm] at hi
       | ok rem =>
-        exact gapFitsBack_of_tail S htl doc f T t G2 old rem gap hd hn ⟨hft, h1, h2⟩ h3 hsl hgap ⟨hgo1, hgo2⟩ hrm
+        exact gapFitsBack_of_tail S doc f T t G2 old rem gap hd hn ⟨hft, h1, h2⟩ h3 hsl hgap ⟨hgo1, hgo2⟩ hrm
           (h4 G2 (Nat.le_refl _) h2)
 
 /-- the slice of a recorded replace / replace-around step is in normal form -/
@@ -4483,7 +4484,7 @@ theorem editResidual'_of_hyps (S : Schema) (htl : TextLoop S)
       rcases replaceOp_recorded S tr tr1 hlen f t sl h with ⟨e, _⟩ | ⟨s, hr, e, ha⟩
       · rw [e]; trivial
       · rw [e] at hP ⊢
-        exact ⟨⟨hP.1, fit_around_gapFitsBack S htl tr.doc tr1.doc f t sl hI.1 hI.2 hb hft s hr ha⟩, trivial⟩
+        exact ⟨⟨hP.1, fit_around_gapFitsBack S tr.doc tr1.doc f t sl hI.1 hI.2 hb hft s hr ha⟩, trivial⟩
     have conv : HistAll (fun s _ _ => RecordedNorm s) (appended tr tr1) tr1.doc →
         HistAll (fun s d _ => RecordedReplaceOk S s d) (appended tr tr1) tr1.doc := by
       intro hP
